@@ -431,7 +431,8 @@ pub fn conv_enum(w: &World, s: &Spec, syn: &Syn, np: &[usize], vr: &dyn Fn(&[usi
             if s.container.from_word != Call::None {
                 // a declared from_word function returns a marker value
                 Ok(marker_recv(w, s.id, 4000))
-            } else if let Some(v) = vs.iter().find(|v| v.word) {
+            } else if let Some(v) = vs.iter().find(|v| v.word && !v.skip) {
+                // (a skipped variant can never be produced, not even through `word`)
                 Ok(Val::Variant(s.name(), v.rust_name.clone(), vec![]))
             } else {
                 Err(wrong_form(syn, np))
